@@ -15,6 +15,35 @@ def rule_reply(req):
     return ("exc", 4)
 
 
+def survive_cases(rng, tier):
+    """connections established before ANOTHER connection's setup fails (serve returns that error) or is rejected: each of them
+    still gets the reply to a request it sends afterwards"""
+    cs = []
+    for _ in range(6 if tier == "quick" else 60):
+        for proto in ("tcp", "rtu"):
+            n = rng.randrange(1, 5)
+            end = rng.choice(["e:Other", "e:PermissionDenied", "e:ConnectionReset", "r"])
+            conns, want = [], []
+            for k in range(n):
+                fs = []
+                for seq in (1, 2):
+                    req = ("WSR", rng.randrange(65536), rng.randrange(65536))
+                    fs.append((cligen.frame(proto, rng.randrange(65536), rng.randrange(1, 248), mb.spec_req_pdu(req)), "r=" + mb.show_rsp(("WSR", req[1], req[2]))))
+                conns.append("%s/%s/%s/%s" % (fs[0][0].hex(), fs[1][0].hex(), fs[0][1], fs[1][1]))
+                want.append("first=%s second=%s" % (fs[0][0].hex(), fs[1][0].hex()))      # WriteSingleRegister is echoed
+            cs.append(Case("SURVIVE %s %s %s" % (proto, end, "|".join(conns)),
+                           {"k": "survive", "proto": proto, "want": "serve=%s | %s" % ("LISTENING" if end == "r" else "E:" + end[2:], " | ".join(want)), "end": end, "n": n}))
+    return cs
+
+
+def survive_oracle(c):
+    r = c.impl or ""
+    if r == c.meta["want"]:
+        return None
+    return "connections established before another connection's setup ended as %s: got %s; every one of them must still be served (%s)" % (
+        c.meta["end"], r[:160], c.meta["want"][:120])
+
+
 class PROP(Prop):
     id = "C18"
     profiles = ["debug"]
@@ -24,7 +53,7 @@ class PROP(Prop):
             "runtime (2..8 workers); every connection pipelines 1..12 requests tagged (connection, sequence) with random pacing (0..300 us); the "
             "service answers by a fixed rule (echo / computed registers / no reply / exception).  Oracle: the bytes each client received are exactly "
             "the spec replies to its own requests in its own order; the service factory was invoked once per connection with that connection's "
-            "peer address (runs over the IPv4 and the IPv6 loopback; accept_tcp_connection also probed directly with IPv4, IPv6, mapped, compatible, scoped addresses).  Each connection's byte stream is also run through the model (SRV) and compared.  non-trivial = run with >= 2 connections")
+            "peer address (runs over the IPv4 and the IPv6 loopback; accept_tcp_connection also probed directly with IPv4, IPv6, mapped, compatible, scoped addresses).  Each connection's byte stream is also run through the model (SRV) and compared.  Connections established before another connection's setup fails or is rejected send a further request afterwards and must still be answered (SURVIVE).  non-trivial = run with >= 2 connections")
 
     def cases(self, rng, tier):
         cs = []
@@ -81,6 +110,7 @@ class PROP(Prop):
                 good = cligen.frame(proto, 1, 1, b"\x11").hex()
                 bad = (b"\x00\x01\x00\x01\x00\x02\x01\x11" if proto == "tcp" else bytes([0x00, 0x80] * 13)).hex()
                 cs.append(Case("ACCEPT %s %s %s %s" % (proto, good, bad, ",".join(evs + ["a"])), {"k": "accept", "proto": proto, "evs": evs}))
+        cs += survive_cases(rng, tier)
         # spread the slow concurrent runs evenly over the shards
         conc = [c for c in cs if c.meta["k"] == "conc"]
         rest = [c for c in cs if c.meta["k"] != "conc"]
@@ -126,6 +156,8 @@ class PROP(Prop):
         if c.meta["k"] == "accept":
             want = sum(1 for e in c.meta["evs"] if e in ("s", "b", "k"))
             return None if r.startswith("served=%d " % want) and r.endswith(" ABORTED") else "accept loop: %s; %d connections must each get a service instance (events %s)" % (r[:60], want, ",".join(c.meta["evs"]))
+        if c.meta["k"] == "survive":
+            return survive_oracle(c)
         if c.meta["k"] == "accaddr":
             return None if r.endswith(" n=1 same=1") else "accept_tcp_connection did not create the service with the peer's address exactly once: %s" % r[:80]
         if c.meta["k"] == "srv":
